@@ -331,5 +331,13 @@ fn softmax(op: &'static str, tier: Tier) -> Vec<Case> {
             }
         }
     }
+    // more than 1024 elements (the grain of the parallel split over lanes) with lane sizes
+    // that do not divide it
+    for shape in [vec![12usize, 100], vec![5, 300], vec![100, 12], vec![2, 7, 77], vec![3, 1030]] {
+        let rank = shape.len() as i64;
+        for a in 0..rank {
+            out.push(Case::new(op, "above the parallel grain size", vec![Some(fill_small(Dt::F32, &shape, 0))]).tol(Tol::NORM).attr_i("axis", a));
+        }
+    }
     out
 }
